@@ -80,6 +80,12 @@ def run(report, tier, seed, driver, proofs_ok):
                 return {"k": gencond.ctx_value(rng, base, typed)}
 
             cases.append((raw, ctx_fn))
+    # wildcard runs: `?` still demands one character when it stands next to `*` (shortest candidates and one longer)
+    for base in ("StringLike", "StringNotLike", "ArnLike", "ArnNotLike"):
+        for pat, cands in (("a?*", ["a", "ab", "abc"]), ("*?", ["", "x"]), ("?*", ["", "x"]), ("?*?", ["x", "xy"]), ("a*?c", ["ac", "abc", "axyc"]), ("a**?", ["a", "ab"]),
+                           ("??", ["a", "ab", "abc"]), ("key-?*", ["key-", "key-1"]), ("a[b]c", ["abc", "a[b]c"]), ("a.c", ["abc", "a.c"])):
+            for cand in cands:
+                cases.append(({base: {"k": pat}}, {"k": cand}))
     results = evaluate(cases, driver, report, "C11")
     for raw, ctx, io, mo, tb, cond, op in results:
         base = tb[0][0]
